@@ -3,7 +3,7 @@
    white space after "not" must be non-empty; an atom occurrence may be spelled a..z (atoms 1..26), x<n> or x_<n>;
    comment lines and stray dots may stand between statements.  Quantifying over all txt with G_program p txt is
    quantifying over all spellings sigma and layouts l.  Definitions only. *)
-Require Import V.Lib.Base V.Lib.Calls V.Lib.Dec V.C09.Spec V.Gen.Consts_C10 V.C10.Model.
+Require Import V.Lib.Base V.Lib.Calls V.Lib.Dec V.C09.Spec V.Gen.Consts_C10 V.C10.Model V.C10.Args.
 Local Open Scope Z_scope.
 
 Definition wsl (w : list Z) : Prop := forallb is_ws w = true.
@@ -46,17 +46,23 @@ Definition G_wlit (x : Z * Z) (txt : list Z) : Prop :=
 Definition G_agg (l : list (Z * Z)) (txt : list Z) : Prop :=
   exists t1 t2 t3, G_tok t_lbrace t1 /\ G_list0 G_wlit (G_tok t_comma) l t2 /\ G_tok t_rbrace t3 /\ txt = t1 ++ t2 ++ t3.
 
-(* #output terms: an identifier, or a quoted string (no CR, NUL; quotes escaped by backslash) *)
+(* #output terms: an identifier, a quoted string (no CR, NUL; quotes escaped by backslash), or an identifier with an
+   argument list (C10/Args.v: characters and strings, balanced parentheses; white space may follow every character
+   outside strings and is not part of the term) *)
 Definition is_idchar (c : Z) : bool := is_alnum c || (c =? 95).
-Fixpoint str_ok (quoted : bool) (b : list Z) : bool :=
-  match b with
-  | [] => negb quoted
-  | c :: r => negb (c =? 0) && negb (c =? 13) && negb ((c =? 34) && negb quoted) && str_ok (negb quoted && (c =? 92)) r
-  end.
-Definition term_ok (t : list Z) : Prop :=
+Definition simple_term (t : list Z) : Prop :=
   (exists c r, t = c :: r /\ (is_lower c || (c =? 95)) = true /\ forallb is_idchar r = true) \/
   (exists b, t = [34] ++ b ++ [34] /\ str_ok false b = true).
-Definition G_term (t : list Z) (txt : list Z) : Prop := exists w, wsl w /\ txt = t ++ w.
+Definition args_term (t : list Z) : Prop :=
+  exists c r args, t = (c :: r) ++ [40] ++ args_canon args ++ [41] /\ (is_lower c || (c =? 95)) = true /\
+                   forallb is_idchar r = true /\ Forall (fun a => arg_ok 0 a = true) args /\ args <> [].
+Definition term_ok (t : list Z) : Prop := simple_term t \/ args_term t.
+Definition G_term (t : list Z) (txt : list Z) : Prop :=
+  (simple_term t /\ exists w, wsl w /\ txt = t ++ w) \/
+  (exists c r args w0 w1 ta w2,
+     t = (c :: r) ++ [40] ++ args_canon args ++ [41] /\ (is_lower c || (c =? 95)) = true /\ forallb is_idchar r = true /\
+     Forall (fun a => arg_ok 0 a = true) args /\ wsl w0 /\ wsl w1 /\ wsl w2 /\ G_args args ta /\
+     txt = (c :: r) ++ w0 ++ [40] ++ w1 ++ ta ++ [41] ++ w2).
 
 Definition wlits_ok (l : list (Z * Z)) : Prop := Forall (fun x => lit_ok (fst x) /\ in_int (snd x) = true) l.
 
@@ -160,7 +166,7 @@ Inductive G_comments : list Z -> Prop :=
 Definition G_program (inc : bool) (steps : list (list call)) (txt : list Z) : Prop :=
   exists w0 tc ti ts, wsl w0 /\ G_comments tc /\ G_steps steps ts /\ txt = w0 ++ tc ++ ti ++ ts /\
     (if inc then exists t1 t2, G_tok t_incremental t1 /\ G_tok t_dot t2 /\ ti = t1 ++ t2
-     else ti = [] /\ length steps = 1%nat).
+     else ti = [] /\ length steps = 1%nat /\ hd 0 ts <> 37).   (* leading comment lines are all counted to tc *)
 
 Definition program_calls (inc : bool) (steps : list (list call)) : list call :=
   CInit inc :: flat_map (fun cs => CBegin :: map norm_call cs ++ [CEnd]) steps.
